@@ -62,8 +62,8 @@ TEXT.update({
 })
 TEXT.update({
  "C15": dict(
-  level="Theorems over the Coq transcription of applyDefaults/validateDefaults: the result extends the instance (present values kept), required properties and undeclared names are never added, non-objects are untouched, and Resolve with ValidateDefaults succeeds exactly when every default of the root tree validates against its declaring subschema (no $dynamicRef, supported $schema). Idempotence and 'inserted values are declared defaults' are evaluated on the package for every case and decided by the correspondence of resulting instances.",
-  note="Partial as stated. Trusted: json.Unmarshal of defaults, reflect; canonical instances only.",
+  level="Theorems over the Coq transcription of applyDefaults/validateDefaults: the result extends the instance (present values kept), required properties and undeclared names are never added, non-objects are untouched, and Resolve with ValidateDefaults succeeds exactly when every default of the root tree validates against its declaring subschema (no $dynamicRef, supported $schema). Idempotence (C15_idempotent, for instances and property maps with distinct keys) and the exact value inserted for an absent property (C15_inserted) are proved as well; the laws idempotent/extends are also evaluated on the package for every case.",
+  note="Canonical instances (map[string]any) only; typed element types and structs are outside the model. Trusted: json.Unmarshal of defaults, reflect.",
  ),
 })
 TEXT.update({
